@@ -74,6 +74,10 @@ def concatBits : List (Option (List Bit)) → Option (List Bit)
   | some b :: rest => (concatBits rest).map (· ++ b)
   | none :: _ => none
 
+/-- byte reversal of a bit list (least significant bit first) whose length is a multiple of 8 -/
+def revBytes (b : List Bit) : List Bit :=
+  (List.range b.length).map fun i => b.getD (8 * (b.length / 8 - 1 - i / 8) + i % 8) (Bit.c false)
+
 /-- the shift amount of a shift node, if it is a literal -/
 def shiftAmt : Expr → Option (Nat × Nat)
   | .app _ [_, .bvv v w] => some (v % 2 ^ w, w)
@@ -90,6 +94,7 @@ def bitsOf (op : Op) (self : Expr) (obs : List (Option (List Bit))) : Option (Li
     | some m => some (b ++ List.replicate n m)
     | none => none
   | .bnot, [some b] => some (b.map Bit.not)
+  | .reverse, [some b] => if b.length % 8 = 0 then some (revBytes b) else none
   | .band, some b0 :: r :: rest => foldBits Bit.and? (r :: rest) (some b0)
   | .bor, some b0 :: r :: rest => foldBits Bit.or? (r :: rest) (some b0)
   | .bxor, some b0 :: r :: rest => foldBits Bit.xor? (r :: rest) (some b0)
